@@ -333,3 +333,47 @@ mod tests {
         assert_eq!(start_pos + replacement.len(), completed_cursor_pos);
     }
 }
+
+/// Verification hook (cargo feature `verif`): execute an already planned expression tree with
+/// the engine's executors, exactly as `run` does after binding and optimisation.
+#[cfg(feature = "verif")]
+impl Database {
+    pub async fn verif_run_plan(
+        &self,
+        plan: &RecExpr,
+    ) -> Result<Vec<crate::array::DataChunk>, Error> {
+        let optimizer = crate::planner::Optimizer::new(
+            self.catalog.clone(),
+            self.get_storage_statistics().await?,
+            crate::planner::Config {
+                enable_range_filter_scan: self.storage.support_range_filter_scan(),
+                table_is_sorted_by_primary_key: self.storage.table_is_sorted_by_primary_key(),
+            },
+        );
+        let executor = match self.storage.clone() {
+            StorageImpl::InMemoryStorage(s) => crate::executor::build(optimizer.clone(), s, plan),
+            StorageImpl::SecondaryStorage(s) => crate::executor::build(optimizer.clone(), s, plan),
+        };
+        Ok(executor.try_collect().await?)
+    }
+
+    /// Verification hook: bind (and optionally optimise) a single statement, returning the plan.
+    pub async fn verif_plan(&self, sql: &str, optimize: bool) -> Result<RecExpr, Error> {
+        let optimizer = crate::planner::Optimizer::new(
+            self.catalog.clone(),
+            self.get_storage_statistics().await?,
+            crate::planner::Config {
+                enable_range_filter_scan: self.storage.support_range_filter_scan(),
+                table_is_sorted_by_primary_key: self.storage.table_is_sorted_by_primary_key(),
+            },
+        );
+        let stmts = parse(sql)?;
+        let stmt = stmts.into_iter().next().ok_or_else(|| Error::Internal("empty".into()))?;
+        let mut binder = crate::binder::Binder::new(self.catalog.clone());
+        let mut plan = binder.bind(stmt).map_err(|e| e.with_sql(sql))?;
+        if optimize {
+            plan = optimizer.optimize(plan);
+        }
+        Ok(plan)
+    }
+}
